@@ -2,7 +2,7 @@
 from mirlib import *
 from ranges import *
 from shape import *
-import r_decclass, r_inv, r_surr, r_pendcount
+import r_decclass, r_inv, r_surr, r_pendcount, r_requeue
 
 DEC_SURR_SCOPE = lambda nm: 'Decoder::' in nm or nm.startswith(('handles::Utf16Destination', 'handles::Utf8Destination', 'handles::convert_unaligned', 'utf_16::'))
 
@@ -24,7 +24,8 @@ MANIFEST = {
             'code_point 0 is inductive over every non-terminal path of both bodies (no dropped reset). Values produced by index look-ups and pointer arithmetic, trail-byte acceptance (table '
             'contents) and whole-stream equality with the Standard are numerical and not decided. ' 
             '(R-SURR) every surrogate-class test in the UTF-16 decoder, its copy_utf16_from fast paths and convert_unaligned_utf16_to_utf8 denotes exactly D800-DBFF, DC00-DFFF or D800-DFFF. ' 
-            '(R-PENDCOUNT) for the two decoders that keep an unfinished sequence in an enum (EUC-JP, gb18030), Pending::count() — reported as the malformed length when the stream ends there — agrees with the bytes actually taken: on every path from a loop head to `return InputEmpty` that stores a non-None variant, count(variant) minus the number of byte reads on the path is the same for all variants (the byte already in hand at that head).',
+            '(R-PENDCOUNT) for the two decoders that keep an unfinished sequence in an enum (EUC-JP, gb18030), Pending::count() — reported as the malformed length when the stream ends there — agrees with the bytes actually taken: on every path from a loop head to `return InputEmpty` that stores a non-None variant, count(variant) minus the number of byte reads on the path is the same for all variants (the byte already in hand at that head). ' 
+            '(R-REQUEUE) on every path that ends in Malformed(len, after) with after > 0 (gb18030: 8 paths, resume and in-loop) the bytes of the current sequence are ordered chronologically (payload of the matched pending variant, byte in hand, reads minus unread) and every value stored into a state field derives only from the `after` re-queued bytes, never from the malformed ones, and each re-queued byte reaches a state field.',
     'note': 'Trusted: rustc MIR, mirx, rule library, the Standard\'s decoder byte ranges transcribed in rules/p_c01.py; the ASCII fast path '
             'delivers only bytes >= 0x80 as `non_ascii` (kernel contract).',
     'technique': 'abstract interpretation (exact interval sets per fetched byte, opaque table predicates) over rustc MIR',
@@ -344,6 +345,8 @@ def run(rep, facts, tier):
         d6(rep, f, c)
         r_inv.run(rep, f, c, 'R-INV')
         r_pendcount.run(rep, f, c)
+        n = r_requeue.run(rep, f, c)
+        rep.floor('R-REQUEUE', 'Malformed(len, after>0) paths with re-queued bytes', n, 8, c)
         n = r_surr.run(rep, f, c, 'R-SURR', DEC_SURR_SCOPE)
         rep.floor('R-SURR', 'surrogate-class tests on the decoder side (UTF-16 decoder, copy_utf16_from, convert_unaligned_utf16_to_utf8)', n, 10, c)
     return ('other', MANIFEST['text'], [])
